@@ -104,7 +104,7 @@ def key_of_file(name):
 
 
 # ------------------------------------------------------------------ OFX responses built with the library
-SETKINDS = ("bank", "cc", "inv", "other")
+SETKINDS = ("bank", "cc", "inv", "other", "prof")
 
 
 def make_profile(n, sets, tag="", pad=0):
@@ -116,12 +116,14 @@ def make_profile(n, sets, tag="", pad=0):
     ep = M.EMAILPROF(canemail=False, cannotify=False)
     ms = []
     # MSGSETLIST members must follow the declared class order (signup, bank, creditcard, invstmt); stable within a class
-    rank = {"other": 1, "bank": 2, "cc": 3, "inv": 4}
+    rank = {"other": 1, "bank": 2, "cc": 3, "inv": 4, "prof": 5}
     for kind, url, closing in sorted(sets, key=lambda s: rank[s[0]]):
         if kind == "bank":
             ms.append(M.BANKMSGSET(bankmsgsetv1=M.BANKMSGSETV1(msgsetcore=core(url), closingavail=closing, emailprof=ep)))
         elif kind == "cc":
             ms.append(M.CREDITCARDMSGSET(creditcardmsgsetv1=M.CREDITCARDMSGSETV1(msgsetcore=core(url), closingavail=closing)))
+        elif kind == "prof":        # the profile message set itself, with its own URL (the client must keep asking at the CONFIGURED url)
+            ms.append(M.PROFMSGSET(profmsgsetv1=M.PROFMSGSETV1(msgsetcore=core(url))))
         elif kind == "inv":
             ms.append(M.INVSTMTMSGSET(invstmtmsgsetv1=M.INVSTMTMSGSETV1(
                 msgsetcore=core(url), trandnld=True, oodnld=False, posdnld=True, baldnld=True, canemail=False)))
@@ -641,7 +643,8 @@ class FsWorld:
 
 # ------------------------------------------------------------------ C15: real process death (no exception, no handler, no flush)
 DEATH_NAMES = {"open", "fdopen", "mkstemp", "write", "writelines", "flush", "fsync", "fdatasync", "close", "__exit__", "replace", "rename",
-               "truncate", "ftruncate", "unlink", "remove", "link", "symlink", "write_bytes", "write_text", "copyfile", "move", "sendfile"}
+               "truncate", "ftruncate", "unlink", "remove", "link", "symlink", "write_bytes", "write_text", "copyfile", "move", "sendfile",
+               "copy_file_range", "readinto", "splice", "pwrite", "writev", "utime", "chmod", "setxattr", "listxattr"}
 
 
 def death_child(argfile):
@@ -652,6 +655,21 @@ def death_child(argfile):
     a = json.load(open(argfile))
     for k_, v in a["env"].items():
         os.environ[k_] = v
+    import tempfile
+    if a.get("tmpdir"):                       # the system temp directory on ANOTHER file system than the cache directory
+        os.environ["TMPDIR"] = a["tmpdir"]
+        tempfile.tempdir = a["tmpdir"]
+    if a.get("fake_exdev"):                   # no second file system here: make rename/replace across directories fail like one
+        import errno
+        _ren, _rep = os.rename, os.replace
+
+        def _x(orig):
+            def f(src, dst, *aa, **kk):
+                if os.path.dirname(os.path.realpath(os.fspath(src))) != os.path.dirname(os.path.realpath(os.fspath(dst))):
+                    raise OSError(errno.EXDEV, "Invalid cross-device link (simulated)")
+                return orig(src, dst, *aa, **kk)
+            return f
+        os.rename, os.replace = _x(_ren), _x(_rep)
     L = lib()
     set_datadir(a["datadir"])
     body = open(a["body_file"], "rb").read()
@@ -700,4 +718,84 @@ def run_death_child(args, workdir):
     code = "import sys; sys.path.insert(0, %r); from ofxv import client_harness as H; H.death_child(sys.argv[1])" % tools
     env = dict(os.environ, PYTHONHASHSEED="0", PYTHONDONTWRITEBYTECODE="1", OFXV_REPO=C.REPO)
     p = subprocess.run([C.PY, "-c", code, af], stdout=subprocess.PIPE, stderr=subprocess.STDOUT, env=env, timeout=120)
+    return p.returncode, p.stdout.decode("utf-8", "replace")
+
+
+def other_device_dir(ref, tag):
+    """a fresh writable directory on a DIFFERENT file system than `ref` (st_dev differs), or None.  Never under /tmp."""
+    try:
+        dev = os.stat(ref).st_dev
+    except OSError:
+        return None
+    for cand in ("/dev/shm", "/run/shm", "/var/tmp", "/run/user/%d" % os.getuid(), os.path.expanduser("~")):
+        try:
+            if os.path.isdir(cand) and os.access(cand, os.W_OK) and os.stat(cand).st_dev != dev:
+                d = os.path.join(cand, "ofxv-%s-%d" % (tag, os.getpid()))
+                os.makedirs(d, exist_ok=True)
+                return d
+        except OSError:
+            continue
+    return None
+
+
+# ------------------------------------------------------------------ C14: the front door - `ofxget stmt|stmtend <server> [--all]` through ofxget.main()
+def make_acctinfo(accts):
+    """ACCTINFORS document listing bank accounts [(acctid, accttype, svcstatus)]."""
+    L = lib(); M = L.M
+    infos = [M.ACCTINFO(M.BANKACCTINFO(bankacctfrom=M.BANKACCTFROM(bankid="123456789", acctid=a, accttype=t), suptxdl=True, xfersrc=False, xferdest=False, svcstatus=st))
+             for a, t, st in accts]
+    dt = date_of(3)
+    trn = M.ACCTINFOTRNRS(trnuid="1", status=M.STATUS(code=0, severity="INFO"), acctinfors=M.ACCTINFORS(*infos, dtacctup=dt))
+    son = M.SIGNONMSGSRSV1(sonrs=M.SONRS(status=M.STATUS(code=0, severity="INFO"), dtserver=dt, language="ENG"))
+    return L.OFXClient("http://unused.example/").serialize(M.OFX(signonmsgsrsv1=son, signupmsgsrsv1=M.SIGNUPMSGSRSV1(trn)))
+
+
+def cli_child(argfile):
+    """runs in a SUBPROCESS (ofxget reads its configuration at import time): writes the user configuration, installs the fake
+    institution under urllib, runs ofxget.main() with the given command line and prints what was posted where, as JSON."""
+    import json, contextlib
+    a = json.load(open(argfile))
+    for k_, v in a["env"].items():
+        os.environ[k_] = v
+    cfgdir = os.path.join(os.environ["XDG_CONFIG_HOME"], "ofxtools")
+    os.makedirs(cfgdir, exist_ok=True)
+    with open(os.path.join(cfgdir, "ofxget.cfg"), "w") as f:
+        f.write("[%s]\n" % a["server"] + "".join("%s = %s\n" % kv for kv in a["config"].items()))
+    L = lib()
+    set_datadir(a["datadir"])
+    import ofxtools.scripts.ofxget as G
+    prof = make_profile(10, [(k, u, c) for k, u, c in a["sets"]], tag="cli")
+    acct = make_acctinfo([tuple(x) for x in a["accounts"]])
+    seen = []
+
+    def responder(rq):
+        body = rq.body or b""
+        kind = "profile" if b"<PROFRQ>" in body else ("acctinfo" if b"<ACCTINFORQ>" in body else ("stmtend" if b"STMTENDRQ>" in body else ("stmt" if b"STMTRQ>" in body else "other")))
+        seen.append({"url": rq.url, "method": rq.method, "kind": kind, "userid": a["userid"].encode() in body, "password": a["password"].encode() in body,
+                     "placeholder": L.Client.AUTH_PLACEHOLDER.encode() in body})
+        return Resp(body=prof if kind == "profile" else (acct if kind == "acctinfo" else b"OFXHEADER:100\r\n\r\n<OFX></OFX>"))
+    err = None
+    sys.argv = ["ofxget"] + a["argv"]
+    with FakeNet(responder), contextlib.redirect_stdout(io.StringIO()), contextlib.redirect_stderr(io.StringIO()):
+        try:
+            G.main()
+        except SystemExit as e:
+            err = "SystemExit(%r)" % (e.code,)
+        except Exception as e:      # noqa
+            err = "%s: %s" % (type(e).__name__, e)
+    os.write(1, (json.dumps({"requests": seen, "error": err}) + "\n").encode())
+    os._exit(0)
+
+
+def run_child(fn_name, args, workdir, timeout=120):
+    """run client_harness.<fn_name>(argfile) in a fresh interpreter -> (exit code, stdout)."""
+    import json, subprocess
+    os.makedirs(workdir, exist_ok=True)
+    af = os.path.join(workdir, "%s-args.json" % fn_name)
+    with open(af, "w") as f:
+        json.dump(args, f)
+    tools = os.path.dirname(os.path.dirname(os.path.abspath(__file__)))
+    code = "import sys; sys.path.insert(0, %r); from ofxv import client_harness as H; H.%s(sys.argv[1])" % (tools, fn_name)
+    env = dict(os.environ, PYTHONHASHSEED="0", PYTHONDONTWRITEBYTECODE="1", OFXV_REPO=C.REPO)
+    p = subprocess.run([C.PY, "-c", code, af], stdout=subprocess.PIPE, stderr=subprocess.STDOUT, env=env, timeout=timeout)
     return p.returncode, p.stdout.decode("utf-8", "replace")
